@@ -204,12 +204,29 @@ def _check_proto(run, world, folder, mod, c):
         raise AnalysisError("%s.ReadState vanished" % c.qname)
     rs_expr = ast.parse("self.ReadState", mode="eval").body
     attrs = {"self._rx_state", "self.rx_state"}
+    # ---- buffer size ----------------------------------------------------------
+    size = None
+    for s in ast.walk(rfn):
+        if isinstance(s, ast.Assign) and unparse(s.targets[0]) == \
+                "self._buffer":
+            v = s.value
+            if isinstance(v, ast.BinOp) and isinstance(v.op, ast.Mult) and \
+                    unparse(v.left) == "[None]":
+                iv = iv_eval(v.right, {}, folder, c)
+                size = iv.lo if iv else None
+    if size is None:
+        raise AnalysisError("buffer size of %s not found in reset()" % P)
+    from .. import unroll as _un
+    _saved_len = _un.SEQ_LEN[0]
+    _un.SEQ_LEN[0] = lambda e_: size if unparse(e_) == "self._buffer" \
+        else None
     from ..normal import normalise
     nfn = normalise(fn, world, c.mod, c, primitives=(
         "reset", "_process_dali_frame", "_process_error",
         "_process_system_message", "_process_luba_event",
         "_process_luba_response", "_process_luba_info", "_insert_checksum",
         "_calc_checksum"), aliases=False)
+    _un.SEQ_LEN[0] = _saved_len
     branches = []
     ndec = 0
     for name, val in folder.enum_members(rs_).items():
@@ -264,18 +281,6 @@ def _check_proto(run, world, folder, mod, c):
                sample={"rule": "R-FSM-NEXT", "state": state,
                        "next": sorted(got)})
 
-    # ---- buffer size ----------------------------------------------------------
-    size = None
-    for s in ast.walk(rfn):
-        if isinstance(s, ast.Assign) and unparse(s.targets[0]) == \
-                "self._buffer":
-            v = s.value
-            if isinstance(v, ast.BinOp) and isinstance(v.op, ast.Mult) and \
-                    unparse(v.left) == "[None]":
-                iv = iv_eval(v.right, {}, folder, c)
-                size = iv.lo if iv else None
-    if size is None:
-        raise AnalysisError("buffer size of %s not found in reset()" % P)
     reset_zero = any(unparse(s) == "self._rx_received_len = 0"
                      for s in rfn.body)
     reset_state = any(unparse(s).startswith("self.rx_state = self.ReadState.")
@@ -469,23 +474,66 @@ def _check_proto(run, world, folder, mod, c):
         idx = sorted(int(x.name[1:]) for x in chk.syms)
         if idx == list(range(idx[0], idx[-1] + 1)) and idx[-1] == 5:
             tx = "X[%d:-1]" % idx[0]
+    # the receiver's span: the terminal state's residual body evaluated on
+    # a buffer of symbols (payload length fixed at 2 for the length-prefixed
+    # protocol) up to the comparison with the received byte - what is
+    # XOR-ed there, whatever the spelling (reduce, a loop, a helper)
     rx = None
-    rx_node = None
-    for n in ast.walk(fn):
-        if isinstance(n, ast.Call) and unparse(n.func) == "reduce" and \
-                unparse(n.args[0]) == "xor":
-            rx = unparse(n.args[1])
-            rx_node = n
-    # normalise: received_data = tuple(buffer[0:L+4]) -> X ; buffer[0:4] of a
-    # 5-byte frame == X[0:-1]
     norm = None
-    if rx is not None:
-        if rx == "received_data[1:-1]":
-            norm = "X[1:-1]"
-        elif rx == "self._buffer[0:%d]" % (size - 1):
-            norm = "X[0:-1]"
-        elif rx == "received_data[0:-1]":
-            norm = "X[0:-1]"
+    rx_node = None
+    tbody = branches[-1][1]
+    L_ = 2
+
+    class _Stop(Exception):
+        pass
+
+    class _Prep(ast.NodeTransformer):
+        def visit_Attribute(self, n):
+            t_ = unparse(n)
+            if isinstance(n.ctx, ast.Load) and t_ == "self._buffer":
+                return ast.copy_location(ast.Name("__buf", ast.Load()), n)
+            if isinstance(n.ctx, ast.Load) and t_ in (
+                    "self._rx_received_len", "self._rx_expected_len"):
+                return ast.copy_location(ast.Constant(L_), n)
+            return self.generic_visit(n)
+    from ..inline import acopy
+    stub = ast.FunctionDef(name="terminal", args=ast.arguments(
+        posonlyargs=[], args=[ast.arg("self"), ast.arg(arg)], kwonlyargs=[],
+        kw_defaults=[], defaults=[]), body=[
+            _Prep().visit(acopy(x)) for x in tbody
+            if not (isinstance(x, ast.If) and "isinstance(%s, int)" % arg
+                    in unparse(x.test))],
+        decorator_list=[], returns=None, type_comment=None, type_params=[])
+    ast.fix_missing_locations(stub)
+    buf = [Sym("s%d" % i) for i in range(size)]
+    seen_cmp = []
+
+    def on_cmp(op, l, r, node):
+        for (x, y) in ((l, r), (r, l)):
+            if isinstance(y, Sym) and y.name == "rx" and isinstance(
+                    x, (Xor, Sym)):
+                seen_cmp.append((x, node))
+                raise _Stop()
+    we = WireEval(world, folder, c, {"nbytes": 2, "sendtwice": False})
+    we.on_cmp = on_cmp
+    try:
+        we.run(stub, {"self": SelfObj(c), arg: Sym("rx"), "__buf": buf})
+    except _Stop:
+        pass
+    except AnalysisError as e_:
+        raise AnalysisError("R-FSM-CHK: the checksum test of %s cannot be "
+                            "evaluated: %s" % (P, e_))
+    if seen_cmp:
+        x, rx_node = seen_cmp[0]
+        syms_ = {x.name} if isinstance(x, Sym) else (
+            {q.name for q in x.syms} if x.const == 0 else set())
+        idx = sorted(int(q[1:]) for q in syms_ if q.startswith("s"))
+        rx = "buffer%s" % idx
+        # the frame is the buffer up to and including the checksum slot
+        n_frame = (L_ + 4) if c.name == "LubaProtocol" else size
+        if idx and idx == list(range(idx[0], idx[-1] + 1)) and \
+                idx[-1] == n_frame - 2:
+            norm = "X[%d:-1]" % idx[0]
     run.ob("R-FSM-CHK", P + "#checksum-span", tx is not None and norm == tx,
            "receiver verifies XOR over %s, transmitter computes it over %s"
            % (rx, tx), where(mod, rx_node or fn),
@@ -557,6 +605,82 @@ def _check_proto(run, world, folder, mod, c):
                    guarded, "an unknown code byte raises ValueError out of "
                    "data_received", where(mod, n))
     run.floor("%s enum conversions in _process_byte" % c.name, n_enum, 1)
+    # frames built from received bytes: Frame(bits, data) raises ValueError
+    # for a length that is not positive, so such a construction is either
+    # under a test of that length or inside a handler that catches it
+    nctor = 0
+    for mname, (kind_, mfn) in sorted(c.methods.items()):
+        if not mname.startswith("_process"):
+            continue
+        parent_ = {}
+        for x in ast.walk(mfn):
+            for ch in ast.iter_child_nodes(x):
+                parent_[id(ch)] = x
+        for n in ast.walk(mfn):
+            if not (isinstance(n, ast.Call) and len(n.args) == 2):
+                continue
+            k_ = world.resolve_class(SER, n.func)
+            if k_ is None or k_.qname not in ("dali.frame.ForwardFrame",
+                                              "dali.frame.Frame"):
+                continue
+            lens = [unparse(x.args[0]) for x in ast.walk(n.args[0])
+                    if isinstance(x, ast.Call) and unparse(x.func) == "len"
+                    and x.args]
+            if not lens:
+                continue          # fixed size
+            nctor += 1
+            caught = tested = False
+            child, p_ = n, parent_.get(id(n))
+            while p_ is not None and p_ is not mfn:
+                if isinstance(p_, ast.Try) and any(
+                        child is s_ for s_ in p_.body):
+                    for h in p_.handlers:
+                        ts = [] if h.type is None else (
+                            h.type.elts if isinstance(h.type, ast.Tuple)
+                            else [h.type])
+                        if h.type is None or any(unparse(t_) in (
+                                "ValueError", "Exception", "BaseException")
+                                for t_ in ts):
+                            caught = True
+                if isinstance(p_, ast.If):
+                    # the construction sits in a branch of a chain that
+                    # tests the same length
+                    q_ = p_
+                    while q_ is not None:
+                        if isinstance(q_, ast.If) and any(
+                                "len(%s)" % l_ in unparse(q_.test, 300)
+                                for l_ in lens):
+                            tested = True
+                        nxt_ = parent_.get(id(q_))
+                        q_ = nxt_ if isinstance(nxt_, ast.If) and q_ in \
+                            nxt_.orelse else None
+                child, p_ = p_, parent_.get(id(p_))
+            if not (caught or tested):
+                # guard clauses: every path to the construction passes a
+                # test of that length
+                from ..pathcond import path_conds
+                mcfg = CFG(mfn, may_raise=explicit_raise_only,
+                           name=P + "." + mname)
+                site = [x for x in mcfg.reachable if x.ast is not None and
+                        x.kind in ("stmt", "test") and any(
+                            y is n for y in ast.walk(x.ast))]
+
+                def ltree(t_, lens=lens):
+                    if any("len(%s)" % l_ in unparse(t_, 300)
+                           for l_ in lens):
+                        return ("atom", ("p", "length test", True))
+                    return None
+                if site:
+                    d_ = path_conds(mcfg, site[0], ltree, what="R-FSM-ESC")
+                    tested = bool(d_) and all(len(cj) > 0 for cj in d_)
+            run.ob("R-FSM-ESC", "%s.%s#%s" % (P, mname, unparse(n)[:40]),
+                   caught or tested,
+                   "`%s` is built from received bytes with neither a test of "
+                   "their number nor a handler for ValueError around it: a "
+                   "frame announcing no data bytes raises out of "
+                   "data_received and the receiver is not reset" % unparse(
+                       n)[:60], where(mod, n))
+    run.floor("%s frames built from received bytes" % c.name, nctor, 1)
     # argument type check is the only other raise
     raises = [unparse(r.exc.func if isinstance(r.exc, ast.Call) else r.exc)
               for r in ast.walk(fn) if isinstance(r, ast.Raise) and
